@@ -50,8 +50,12 @@ def context_neighbors(model, R):
     R.check(ok, 'LINKS', nb, nb.node, 'Context._neighbors: Lindig neighbours over the object sets of this context',
             'algorithms.neighbors(objects, Objects=self._Objects)', src(r[0]) if r else '')
     # label form derives from the same generator
-    comps = [n for n in walk(f.body) if isinstance(n, (ast.ListComp, ast.GeneratorExp)) and len(n.generators) == 1
-             and isinstance(n.generators[0].iter, ast.Call) and chain(n.generators[0].iter.func) == ['self', '_neighbors']]
+    fenv = Env(f)
+
+    def over_neighbors(it):
+        it = fenv.expand(it) if isinstance(it, ast.Name) else it
+        return isinstance(it, ast.Call) and chain(it.func) == ['self', '_neighbors']
+    comps = [n for n in walk(f.body) if isinstance(n, (ast.ListComp, ast.GeneratorExp)) and len(n.generators) == 1 and over_neighbors(n.generators[0].iter)]
     if len(comps) != 1:
         R.unknown('LINKS', f, f.node, 'Context.neighbors: label form lists every cover as (extent, intent) labels', f'{len(comps)} comprehensions over self._neighbors(...)')
     else:
